@@ -170,7 +170,7 @@ func main() {
 	list := flag.Bool("list", false, "list harness functions")
 	flag.BoolVar(&verboseInit, "verbose-init", false, "report skipped initialiser statements")
 	dump := flag.String("dump", "", "dump SSA of the named function and exit")
-	solver := flag.String("solver", "z3", "primary solver kind")
+	solver := flag.String("solver", "z3-new", "primary solver kind")
 	flag.Parse()
 
 	t0 := time.Now()
